@@ -356,4 +356,108 @@ theorem getIdx_swapAxes (t : Tensor K) (a b : ℕ) (idx : List ℕ) (ha : a < t.
       have hk' : sw a b k < t.shape.length := (sw_lt a b k _ ha hb).mpr hk
       rw [zero_add, getD_swapL _ _ _ _ _ _ (by omega) (by omega), getD_strides _ _ hk']
 
+/-! ## Two re-indexings of the same axis compose (flip, then roll) -/
+
+theorem set_getD_self (l : List ℕ) (d y : ℕ) : l.set d (l.getD d y) = l := by
+  apply List.ext_getElem?
+  intro k
+  by_cases hk : d = k
+  · subst hk
+    by_cases hd : d < l.length
+    · simp [List.getElem?_set, hd, List.getD_eq_getElem?_getD]
+    · simp [List.getElem?_set, hd]
+  · simp [List.getElem?_set, hk]
+
+theorem roll_flip_idx_aux (n k' r : ℕ) (hk' : k' < n) (hr : r < n) :
+    n - 1 - (r + (n - k')) % n = (n + k' - 1 - r) % n := by
+  by_cases hc : k' ≤ r
+  · have e1 : r + (n - k') = (r - k') + n := by omega
+    have l1 : r - k' < n := by omega
+    have l2 : n + k' - 1 - r < n := by omega
+    rw [e1, Nat.add_mod_right, Nat.mod_eq_of_lt l1, Nat.mod_eq_of_lt l2]
+    omega
+  · have e2 : n + k' - 1 - r = (k' - 1 - r) + n := by omega
+    have l1 : r + (n - k') < n := by omega
+    have l2 : k' - 1 - r < n := by omega
+    rw [Nat.mod_eq_of_lt l1, e2, Nat.add_mod_right, Nat.mod_eq_of_lt l2]
+    omega
+
+/-- Index map of "flip, then `np.roll` by `k`" = the correspondence `r ↦ (n + k - 1 - r) mod n`. -/
+theorem roll_flip_idx (n k r : ℕ) (hr : r < n) :
+    n - 1 - (r + (n - k % n)) % n = (n + k - 1 - r) % n := by
+  have hk' : k % n < n := Nat.mod_lt _ (by omega)
+  have h1 : (n + k - 1 - r) % n = (n + k % n - 1 - r) % n := by
+    have e : n + k - 1 - r = (n + k % n - 1 - r) + n * (k / n) := by
+      have h := Nat.mod_add_div k n
+      generalize k % n = a at h ⊢
+      generalize n * (k / n) = M at h ⊢
+      omega
+    rw [e, Nat.add_mul_mod_self_left]
+  rw [h1]
+  exact roll_flip_idx_aux n (k % n) r hk' hr
+
+/-- Re-indexing an axis twice (same length) is re-indexing by the composite on the positions that
+occur. -/
+theorem reindexAxis_reindexAxis (t : Tensor K) (d : ℕ) (g1 g2 g : ℕ → ℕ)
+    (hg2 : ∀ r, r < t.shape.getD d 1 → g2 r < t.shape.getD d 1)
+    (hg : ∀ r, r < t.shape.getD d 1 → g1 (g2 r) = g r) :
+    (t.reindexAxis d (t.shape.getD d 1) g1).reindexAxis d (t.shape.getD d 1) g2
+      = t.reindexAxis d (t.shape.getD d 1) g := by
+  have hset : t.shape.set d (t.shape.getD d 1) = t.shape := set_getD_self t.shape d 1
+  unfold Tensor.reindexAxis Tensor.build3
+  simp only []
+  congr 1
+  · rw [hset]; exact hset
+  apply Array.ext
+  · simp only [Array.size_ofFn, hset]
+  intro idx h1 h2
+  simp only [Array.size_ofFn] at h1 h2
+  rw [Array.getElem_ofFn, Array.getElem_ofFn]
+  simp only [hset]
+  set n := t.shape.getD d 1 with hn
+  set inn := (Tensor.split3 t.shape d).2.2 with hinn
+  set o := (Tensor.split3 t.shape d).1 with ho
+  have hinnpos : 0 < inn := by
+    rcases Nat.eq_zero_or_pos inn with h | h
+    · rw [h] at h2; simp at h2
+    · exact h
+  have hnpos : 0 < n := by
+    rcases Nat.eq_zero_or_pos n with h | h
+    · rw [h] at h2; simp at h2
+    · exact h
+  have hr : idx / inn % n < n := Nat.mod_lt _ hnpos
+  have hi : idx % inn < inn := Nat.mod_lt _ hinnpos
+  have ha : idx / (inn * n) < o := by
+    rw [Nat.div_lt_iff_lt_mul (Nat.mul_pos hinnpos hnpos)]
+    calc idx < o * n * inn := h2
+      _ = o * (inn * n) := by ring
+  rw [← hg _ hr]
+  have hg2r := hg2 _ hr
+  obtain ⟨e1, e2, e3⟩ := digits3 (idx / (inn * n)) n (g2 (idx / inn % n)) inn (idx % inn) hg2r hi
+  have hbound : (idx / (inn * n) * n + g2 (idx / inn % n)) * inn + idx % inn < o * n * inn := by
+    have : (idx / (inn * n) * n + g2 (idx / inn % n) + 1) * inn ≤ o * n * inn := by
+      apply Nat.mul_le_mul_right
+      have : (idx / (inn * n) + 1) * n ≤ o * n := Nat.mul_le_mul_right _ ha
+      nlinarith
+    nlinarith
+  have h21 : (Tensor.split3 t.shape d).2.1 = n := rfl
+  unfold Tensor.at3 Tensor.get
+  simp only [h21, ← hinn]
+  rw [getD_ofFn _ _ hbound]
+  simp only [e1, e2, e3]
+
+/-- Re-indexing only looks at the positions below the new length. -/
+theorem reindexAxis_congr (t : Tensor K) (d m : ℕ) (g g' : ℕ → ℕ) (h : ∀ r, r < m → g r = g' r) :
+    t.reindexAxis d m g = t.reindexAxis d m g' := by
+  unfold Tensor.reindexAxis Tensor.build3
+  simp only []
+  congr 2
+  funext idx
+  have hpos := idx.isLt
+  have hm : 0 < m := by
+    by_contra h0
+    have h0' : m = 0 := by omega
+    simp only [h0', Nat.mul_zero, Nat.zero_mul, Nat.not_lt_zero] at hpos
+  rw [h _ (Nat.mod_lt _ hm)]
+
 end Splipy.C06
